@@ -42,6 +42,7 @@ import (
 	"sync/atomic"
 	"time"
 
+	"github.com/krotik/ecal/cli/tool"
 	"github.com/krotik/ecal/interpreter"
 	"github.com/krotik/ecal/parser"
 	"github.com/krotik/ecal/scope"
@@ -128,6 +129,8 @@ type c16Case struct {
 	stuck   bool // Status does not answer any more
 	pending chan string // an inject that has not returned (yet)
 	sharedErp *interpreter.ECALRuntimeProvider
+	viaCLI  bool // commands go through CLIDebugInterpreter.Handle
+	cli     *tool.CLIDebugInterpreter
 	mu      sync.Mutex
 }
 
@@ -376,6 +379,9 @@ func (c *c16Case) observe() string {
 
 func c16NewCase(scn string, gsGiven bool) *c16Case {
 	c := &c16Case{gate: make(chan struct{}), done: map[uint64]chan struct{}{}, gsGiven: gsGiven}
+	if strings.HasPrefix(scn, "cli:") {
+		scn, c.viaCLI = scn[4:], true
+	}
 	c.gs = scope.NewScope(scope.GlobalScope)
 	if gsGiven {
 		c.dbg = interpreter.NewECALDebugger(c.gs)
@@ -599,6 +605,10 @@ func (c *c16Case) command(line string) string {
 				ch <- "PANIC"
 			}
 		}()
+		if c.viaCLI {
+			ch <- c.commandCLI(line)
+			return
+		}
 		res, err := c.dbg.HandleInput(line)
 		if err != nil {
 			ch <- "error"
@@ -666,6 +676,10 @@ func c16Exec(scn string, gsGiven bool, lines []string, rec []c16Step, obs0 strin
 			case "!start2":
 				if _, ok := c.done[2]; !ok {
 					c.start(2, "prog", c16ProgTop)
+				}
+			case "!dbgtable":
+				if !c.dbgTable() {
+					return o0, out, strings.Join(classes, ",") + " BADTABLE"
 				}
 			case "!release":
 				c.mu.Lock()
@@ -736,9 +750,12 @@ func c16Payload(scn string, gsGiven bool, obs0 string, steps []c16Step) string {
 // C asks for status/describe (read lock). A watchdog bounds the whole exchange: a lock taken
 // twice by one command (a recursive RLock with a writer waiting) or left behind is a HANG.
 func c16Conc() string {
+	// thread 1 is stepped through calls two levels deep: its call stack and the scope snapshots
+	// which `describe 1` hands out (live slices of the debugger) change all the time
 	var sb strings.Builder
+	sb.WriteString("func h(y) {\n    z := y + 1\n    return z\n}\nfunc f(x) {\n    w := h(x)\n    return w\n}\n")
 	for i := 0; i < 400; i++ {
-		sb.WriteString("a := 1\nb := 2\n")
+		sb.WriteString("a := f(1)\nb := 2\n")
 	}
 	c := &c16Case{gate: make(chan struct{}), done: map[uint64]chan struct{}{}, gsGiven: true}
 	c.gs = scope.NewScope(scope.GlobalScope)
@@ -876,6 +893,9 @@ func c16Run(payload string) string {
 	// (found with the harness's own generous, load-tolerant time bounds), not a stuck harness
 	if f[0] == "conc" {
 		return "R:" + c16Conc()
+	}
+	if f[0] == "telnet" {
+		return "R:" + c16Telnet()
 	}
 	if r, ok := c16Recorded.LoadAndDelete(payload); ok {
 		return "R:" + r.(string)
@@ -1051,6 +1071,36 @@ func c16Gen(g *Gen) {
 	emit("top", true, "inject 1 a for x.spin() { }", "status", "disablebreak prog:3", "extract 1 a dst", "describe 1")
 	emit("nest2", true, "inject 1 p f1(1)", "status", "break prog:1", "describe 999", "cont 999 resume", "status")
 	emit("nest1", true, "breakonstart", "inject 1 p f3(1)", "status", "describe 999", "rmbreak nest", "cont 999 stepover", "status")
+	// the same through the CLI tool's handler (cli/tool/debug.go: Handle, CanHandle, the @dbg table)
+	for _, scn := range []string{"cli:none", "cli:top", "cli:nest2", "cli:errsusp", "cli:errmap", "cli:two", "cli:finished"} {
+		emit(scn, true, "!dbgtable", "status", "lockstate", "describe 1", "break prog:1", "cont 1 stepout", "status")
+		emit(scn, true, "inject 1 nv 1+1", "extract 1 nv dst", "inject 1 a 1 +", "cont 1", "nosuchcmd", "rmbreak", "", "status")
+		for _, cmd := range cmds {
+			emit(scn, true, cmd)
+			for _, a := range c16ArgsSmall {
+				if g.R.Intn(2) == 0 {
+					emit(scn, true, cmd+" "+a)
+				}
+				if g.R.Intn(6) == 0 {
+					emit(scn, true, cmd+" "+a+" "+g.R.Pick(c16ArgsSmall))
+				}
+			}
+		}
+	}
+	// the tool's debug server on a real listener, two clients at once
+	ntel := 1
+	if g.Thorough() {
+		ntel = 4
+	}
+	for i := 0; i < ntel; i++ {
+		g.Count("telnet")
+		k++
+		if k%sn != si || k < start {
+			g.Emit("not-in-this-shard")
+		} else {
+			g.Emit(fmt.Sprintf("telnet 1 %d", i))
+		}
+	}
 	// commands from two goroutines at once
 	amplify := os.Getenv("C16_AMPLIFY") != "" // a fact about the lock discipline is not established
 	nconc := 3
